@@ -45,6 +45,10 @@ func c01Classify(x *c01Ctx, d *c01Div) string {
 		return "parser-heredoc-body-skipped-after-test-or-let-clause"
 	case c01SingleLinePendingHeredoc(x, d):
 		return "singleline-pending-heredoc-written-inside-next-statement"
+	case c01KeepPaddingPadsDelimiter(x, d):
+		return "keeppadding-pads-heredoc-delimiter-line"
+	case c01PendingHeredocInsideConstruct(x, d):
+		return "pending-heredoc-written-inside-later-construct"
 	}
 	return ""
 }
